@@ -103,7 +103,7 @@ META.update({
         note="match_row_to_acl's exclusivity iff is proved relative to _find_acl_matches / merge_dicts (assumed); TreeGenerator bookkeeping bounded only",
     ),
     "C11": dict(
-        technique="contract-based deductive verification of collapse_vlandb and its cisco / huawei wrappers (AST->VC, loop invariant, z3+cvc5) + lemma 'the produced ranges denote exactly the sorted distinct VLANs'; " + _B + " for the logic functions",
+        technique="contract-based deductive verification of collapse_vlandb and its cisco / huawei wrappers (lemma: the produced ranges denote exactly the sorted distinct VLANs) and of the huawei logic _process_vlandb / single / multi / multi_all / _parse_vlancfg_actions (finite sets: remove exactly old - new, add exactly new - old); " + _B + " for parsing, the cisco logic and the end-to-end simulation",
         text="exploration + proved links: collapse_vlandb is proved equal to the rendering of the run-length ranges of sorted(set(vlans)) "
              "(tiny_ranges honoured), AssertionError iff the input is empty; lemmas prove that a VLAN is denoted by those ranges iff it is a "
              "member of the input and that every range has lo <= hi. Everything else is bounded: through the real shipped huawei/cisco/nexus rulebooks and make_patch, for 10 VLAN-list rule kinds: all pairs of subsets of "
